@@ -1182,6 +1182,10 @@ HDreuse_tagref(int32  file_id, /* IN: id of file */
     if (BADFREC(file_rec) || tag == DFTAG_WILDCARD || ref == DFREF_WILDCARD)
         HGOTO_ERROR(DFE_ARGS, FAIL);
 
+    /* the directory of a file opened only for reading cannot be changed */
+    if (!(file_rec->access & DFACC_WRITE))
+        HGOTO_ERROR(DFE_DENIED, FAIL);
+
     /* look for the dd to reuse */
     if ((ddid = HTPselect(file_rec, tag, ref)) == FAIL)
         HGOTO_ERROR(DFE_NOMATCH, FAIL);
